@@ -121,6 +121,10 @@ def restart_catalogue():
             s += [step("Push", "B"), step("DeleteClocks", "A", which), step("Reopen", "A", loaders=False), step("Fetch", "A"), step("MergeAll", "A"),
                   step("Read", "A", 1), step("Edit", "A", 1, one), step("Push", "A"), step("Fetch", "B"), step("MergeAll", "B"), step("Read", "B", 1)]
             scheds.append({"replicas": REPLICAS2, "steps": s, "quiesce": True, "name": "merge-with-clocks-behind-%d-%d-%d" % (which, na, nb)})
+    # the edit clock leaps (the replica read a bug created on a replica far ahead), then an older bug is edited: known finding far-clock
+    s = [step("NewBug", "A", runs=one), step("Edit", "A", 1, one), step("Push", "A"), step("ClockLeap", "A"), step("NewBug", "A", runs=one),
+         step("Edit", "A", 2, one), step("Read", "A", 2), step("Edit", "A", 1, one), step("Read", "A", 1)]
+    scheds.append({"replicas": REPLICAS2, "steps": s, "quiesce": False, "name": "far-clock"})
     for ld in (True, False):
         for dele in (True, False):
             s = [step("NewBug", "A", runs=one), step("Edit", "A", 1, one), step("Push", "A"), step("Fetch", "B"),
